@@ -36,6 +36,9 @@ type c09kOp struct {
 	// Ignored (create, label): the pod carries the ignore-by-terway label (such pods are left
 	// out of the node's pod list; they exist all the same)
 	Ignored bool `json:"ignored,omitempty"`
+	// Fail (exist): the authoritative lookup of this query fails in the API server
+	// ("500" | "504" | "429" | "conn"); reads served from the watch cache still work
+	Fail string `json:"fail,omitempty"`
 }
 
 type c09kScenario struct {
@@ -52,6 +55,7 @@ func c09kGen(t *rapid.T) c09kScenario {
 			Kind:    rapid.SampledFrom([]string{"create", "create", "delete", "delete", "move", "catchup", "exist", "exist", "exist", "list", "label"}).Draw(t, "kind"),
 			Pod:     rapid.IntRange(0, c09kPods-1).Draw(t, "pod"),
 			Ignored: rapid.IntRange(0, 3).Draw(t, "ignored") == 0,
+			Fail:    rapid.SampledFrom([]string{"", "", "", "", "500", "504", "429", "conn"}).Draw(t, "fail"),
 		})
 	}
 	return s
@@ -78,6 +82,7 @@ func c09kRun(c *vt.Ctx, s c09kScenario) {
 		return pod
 	}
 	stale := func(opts *metav1.GetOptions) bool { return opts != nil && opts.ResourceVersion == "0" }
+	failGet := ""
 	cl := fake.NewClientBuilder().WithScheme(types.Scheme).WithInterceptorFuncs(interceptor.Funcs{
 		Get: func(ctx context.Context, _ client.WithWatch, key client.ObjectKey, obj client.Object, opts ...client.GetOption) error {
 			pod, ok := obj.(*corev1.Pod)
@@ -91,6 +96,17 @@ func c09kRun(c *vt.Ctx, s c09kScenario) {
 			view := truth
 			if stale(o.Raw) {
 				view = cache
+			} else if failGet != "" {
+				switch failGet {
+				case "500":
+					return apierrors.NewInternalError(fmt.Errorf("etcdserver: request timed out"))
+				case "504":
+					return apierrors.NewTimeoutError("the server was unable to return a response in the time allotted", 1)
+				case "429":
+					return apierrors.NewTooManyRequests("too many requests", 1)
+				default:
+					return fmt.Errorf("Get \"https://10.0.0.1:6443/api/v1/namespaces/ns/pods/%s\": dial tcp 10.0.0.1:6443: connect: connection refused", key.Name)
+				}
 			}
 			p := view[key.Name]
 			if p == nil || key.Namespace != "ns" {
@@ -124,7 +140,7 @@ func c09kRun(c *vt.Ctx, s c09kScenario) {
 	}).Build()
 	k := &k8s{client: cl, nodeName: node, mode: daemon.ModeENIMultiIP}
 
-	laggingAbsent, laggingPresent, askedIgnored := false, false, false
+	laggingAbsent, laggingPresent, askedIgnored, failedLookup := false, false, false, false
 	for i, o := range s.Ops {
 		name := fmt.Sprintf("p%d", o.Pod)
 		switch o.Kind {
@@ -164,6 +180,18 @@ func c09kRun(c *vt.Ctx, s c09kScenario) {
 			if truth[name] != nil && truth[name].ignored && want {
 				askedIgnored = true
 			}
+			if o.Fail != "" {
+				// "existing pods never are": a lookup that failed says nothing about the pod; it
+				// must not be reported as a confirmed absence (the collector releases on that)
+				failGet = o.Fail
+				got, err := k.PodExist("ns", name)
+				failGet = ""
+				failedLookup = true
+				if err == nil {
+					c.Fatalf("step %d: the authoritative lookup of ns/%s failed (%s) but PodExist answered (%v, nil): a failed lookup is reported as a confirmed answer (the pod exists on the node: %v)", i, name, o.Fail, got, want)
+				}
+				continue
+			}
 			got, err := k.PodExist("ns", name)
 			if err != nil {
 				c.Fatalf("step %d: PodExist(ns/%s) failed: %v", i, name, err)
@@ -187,6 +215,10 @@ func c09kRun(c *vt.Ctx, s c09kScenario) {
 	}
 	if askedIgnored {
 		c.Label("exist-query-for-a-pod-with-the-ignore-label")
+		c.NonTrivial()
+	}
+	if failedLookup {
+		c.Label("exist-query-whose-lookup-fails")
 		c.NonTrivial()
 	}
 	if laggingPresent {
